@@ -163,12 +163,16 @@ func streamUnmarshal(r *hx.Rng, cfs []*cfile, bs *builtSet) {
 					case "C17":
 						cases = append(cases, ucase{c, md, canon, pre, "canonical", true})
 					case "C08":
-						if vi%3 != 0 && !thorough {
+						if vi%5 != 0 && !thorough {
 							continue
 						}
 						g := &vgen{r: r, unknown: true, noTrick: true}
 						base := g.message(v)
 						cases = append(cases, ucase{c, md, base, pre, "valid", false})
+					// the same value as legal wire data no encoder emits: split / mixed packed runs, empty runs, superseded
+					// occurrences, sub-messages split over two occurrences
+					g2 := &vgen{r: r, unknown: true, merge: true}
+					cases = append(cases, ucase{c, md, g2.message(v), nil, "valid-variant", false}, ucase{c, md, g2.message(v), pre, "valid-variant", false})
 						step := 1
 						if len(base) > 40 && !thorough {
 							step = len(base) / 40
@@ -183,7 +187,7 @@ func streamUnmarshal(r *hx.Rng, cfs []*cfile, bs *builtSet) {
 						}
 						cases = append(cases, ucase{c, md, inflate(r, base), nil, "inflated", false}, ucase{c, md, inflate(r, base), pre, "inflated", false},
 							ucase{c, md, r.Bytes(1 + r.Intn(16)), nil, "random", false})
-						if vi%6 == 0 {
+						if vi%10 == 0 {
 							// an unknown field whose KEY is a non-minimal varint (well-formed wire data no writer emits), first / last
 							unk := g.unknownField(md)
 							_, _, kn := protowire.ConsumeTag(unk)
